@@ -176,7 +176,8 @@ impl Memory {
     }
 
     pub fn verif_definition_count(&self) -> usize {
-        self.modules.values().map(|m| m.borrow().definitions.len()).sum()
+        // a definition whose value is nil holds no cell, hence no handle
+        self.modules.values().map(|m| m.borrow().definitions.values().filter(|g| !g.verif_is_null()).count()).sum()
     }
 
     /// one line describing the whole heap, with addresses mapped to vector indices
